@@ -54,7 +54,7 @@ var preDims = []preDim{
 	{"lead", []string{"none", "sp", "tab"}},
 	{"trail", []string{"none", "sp", "tab"}},
 	// attributes of the generated line: order, subsets, lockable, spellings that do NOT mean filter=lfs, a macro, tabs between them
-	{"attrs", []string{"std", "filterlast", "textfirst", "filteronly", "lockonly", "filterlock", "stdlock", "lockfirst", "unset", "unspec", "other", "macro", "tabs"}},
+	{"attrs", []string{"std", "filterlast", "textfirst", "filteronly", "lockonly", "filterlock", "stdlock", "lockfirst", "unset", "unspec", "other", "macro", "tabs", "macrounset", "macroval"}},
 	// the pattern P: a glob / a name with a space (written [[:space:]] as git-lfs does)
 	{"pat", []string{"glob", "space"}},
 	// spelling of the pattern: as git-lfs writes it / C-quoted as Git documents
@@ -93,6 +93,10 @@ var preAttrs = map[string]string{
 	"unspec":     "!filter",
 	"other":      "filter=other",
 	"macro":      "mylfs",
+	// the macro switched OFF for the pattern: Git expands a macro only when it is set to true, so these lines do NOT make the
+	// pattern an LFS pattern (`-mylfs` sets attribute mylfs to false, `mylfs=off` gives it a value; neither touches filter)
+	"macrounset": "-mylfs",
+	"macroval":   "mylfs=off",
 	"tabs":       "filter=lfs\tdiff=lfs\tmerge=lfs\t-text",
 }
 
@@ -113,13 +117,16 @@ var preProbes = append(append([]string{}, bProbes...),
 
 func preVal(v []int, d int) string { return preDims[d].Vals[v[d]] }
 
+// preIsMacro: the generated line uses the macro mylfs (set, unset or with a value), so the file needs its definition
+func preIsMacro(v []int) bool { return strings.HasPrefix(preVal(v, dAttrs), "macro") }
+
 func preValid(v []int) bool {
 	// "no newline character in the whole file" is only possible for a one-line file
-	if preVal(v, dTerm) == "single" && (v[dCtx] != 0 || preVal(v, dAttrs) == "macro" || v[dMult] != 0) {
+	if preVal(v, dTerm) == "single" && (v[dCtx] != 0 || preIsMacro(v) || v[dMult] != 0) {
 		return false
 	}
 	// the placement of the macro definition is a property of files that use the macro
-	if v[dMdef] != 0 && preVal(v, dAttrs) != "macro" {
+	if v[dMdef] != 0 && !preIsMacro(v) {
 		return false
 	}
 	// "twice, separated by another line" needs another line
@@ -252,7 +259,7 @@ func preBuild(v []int, withLine bool) (root string, hasRoot bool, sub string, ha
 		}
 		return r
 	}
-	macro := preVal(v, dAttrs) == "macro"
+	macro := preIsMacro(v)
 	loc := preVal(v, dLoc)
 	var pl []preL
 	switch preVal(v, dCtx) {
@@ -327,7 +334,7 @@ func preBuild(v []int, withLine bool) (root string, hasRoot bool, sub string, ha
 
 // preInfo is .git/info/attributes of a deviation vector (only a macro definition is ever put there).
 func preInfo(v []int) (string, bool) {
-	if preVal(v, dAttrs) == "macro" && preVal(v, dMdef) == "info" {
+	if preIsMacro(v) && preVal(v, dMdef) == "info" {
 		return preMacroLine + "\n", true
 	}
 	return "", false
